@@ -59,4 +59,15 @@ PROPS = {
         ],
         assumptions=["keys of one attribute are pairwise distinct (a repeated key is outside the property's quantifier)"],
     ),
+    "C16": dict(
+        coq_props=["Properties/C16.v"],
+        run_modules=["RunC16.v"],
+        harness_cmd="c16",
+        trusted_base=COMMON_TB + [
+            "Serde.v: specification of serde_derive 1.0.217 + serde_json (untagged enums, Option, missing-field rule, deserialize_with, default, flatten, internally tagged enums), validated on this run against real rustc + serde: whole-payload CSerde cases of the compiled module",
+            "`From<IntOrString> for String` (n.to_string() = decimal) and the IdContainer impls are hand-modelled inside Serde.deser_field; `IntOrString` itself is translated",
+            "attach_model is a hand model of ExpandedField::render's helper choice, tied by CAttach cases on every ID type expression",
+        ],
+        assumptions=["payload objects have unique keys", "ID type expressions are well-formed (no `!!`)"],
+    ),
 }
